@@ -1,6 +1,9 @@
 pub mod c01;
 pub mod c02;
 pub mod c05;
+pub mod c06;
+pub mod c07;
+pub mod c08;
 pub mod c09;
 pub mod c10;
 pub mod c11;
@@ -19,6 +22,9 @@ pub fn run(p: &Params) -> Report {
         "C01" => c01::run(p),
         "C02" => c02::run(p),
         "C05" => c05::run(p),
+        "C06" => c06::run(p),
+        "C07" => c07::run(p),
+        "C08" => c08::run(p),
         "C09" => c09::run(p),
         "C10" => c10::run(p),
         "C11" => c11::run(p),
